@@ -2524,6 +2524,149 @@ Proof.
     destruct H3 as [-> | ->]; reflexivity.
 Qed.
 
+(* ================================================================== the least cone (topologically numbered snapshots) *)
+Inductive in_cone (s : sources) (E : nat -> bool) : nat -> Prop :=
+| cone_base i : E i = true -> in_cone s E i
+| cone_step i d : In d (deps_at s i) -> in_cone s E d -> in_cone s E i.
+
+(* dependencies (and alias targets) have smaller node ids *)
+Definition wf_src (s : sources) : bool :=
+  forallb (fun i => forallb (fun d => Nat.ltb d i) (deps_at s i)) (seq 0 (length (s_nodes s))).
+
+Fixpoint cone_upto (s : sources) (E : nat -> bool) (k : nat) : list bool :=
+  match k with
+  | 0 => []
+  | S k' => let l := cone_upto s E k' in
+            l ++ [E k' || existsb (fun d => nth d l false) (deps_at s k')]
+  end.
+
+Definition cone_of (s : sources) (E : nat -> bool) (i : nat) : bool :=
+  E i || nth i (cone_upto s E (length (s_nodes s))) false.
+
+Lemma cone_upto_length s E k : length (cone_upto s E k) = k.
+Proof. induction k as [|k IH]; cbn [cone_upto]; [reflexivity|]. rewrite app_length, IH. cbn. lia. Qed.
+
+Lemma cone_upto_prefix s E i : forall m k, i < k -> k <= m ->
+  nth i (cone_upto s E m) false = nth i (cone_upto s E k) false.
+Proof.
+  induction m as [|m IH]; intros k Hik Hkm; [lia|].
+  destruct (Nat.eq_dec k (S m)) as [->|Hne]; [reflexivity|].
+  cbn [cone_upto]. rewrite app_nth1; [|rewrite cone_upto_length; lia]. apply IH; lia.
+Qed.
+
+Lemma cone_upto_value s E i m : i < m ->
+  nth i (cone_upto s E m) false =
+  E i || existsb (fun d => nth d (cone_upto s E i) false) (deps_at s i).
+Proof.
+  intro Him. rewrite (cone_upto_prefix s E i m (S i)); [|lia|lia].
+  cbn [cone_upto]. rewrite app_nth2; rewrite cone_upto_length; [|lia].
+  rewrite Nat.sub_diag. reflexivity.
+Qed.
+
+Lemma cone_upto_sound s E : forall m i, nth i (cone_upto s E m) false = true -> in_cone s E i.
+Proof.
+  induction m as [|m IH]; intros i Hi; [destruct i; discriminate Hi|].
+  destruct (lt_dec i m) as [Hlt|Hge].
+  - apply IH. rewrite <- Hi. symmetry. apply cone_upto_prefix; lia.
+  - destruct (Nat.eq_dec i m) as [->|Hne].
+    + rewrite cone_upto_value in Hi; [|lia]. apply orb_true_iff in Hi as [HE|Hex].
+      * apply cone_base. exact HE.
+      * apply existsb_exists in Hex as (d & Hd & Hnd). apply cone_step with d; [exact Hd|]. apply IH. exact Hnd.
+    + rewrite nth_overflow in Hi; [discriminate|]. rewrite cone_upto_length. lia.
+Qed.
+
+Lemma cone_of_sound s E i : cone_of s E i = true -> in_cone s E i.
+Proof.
+  unfold cone_of. intro Hc. apply orb_true_iff in Hc as [HE|Hn]; [apply cone_base; exact HE|].
+  eapply cone_upto_sound; exact Hn.
+Qed.
+
+Lemma cone_of_base s E i : E i = true -> cone_of s E i = true.
+Proof. unfold cone_of. intros ->. reflexivity. Qed.
+
+Lemma deps_at_lt s i d : In d (deps_at s i) -> i < length (s_nodes s).
+Proof.
+  unfold deps_at. destruct (node_at s i) as [nd|] eqn:En; [|intros []]. intros _. eapply node_at_lt; exact En.
+Qed.
+
+Lemma cone_of_closed s E i d :
+  wf_src s = true -> In d (deps_at s i) -> cone_of s E d = true -> cone_of s E i = true.
+Proof.
+  intros Hwf Hd Hc. pose proof (deps_at_lt s i d Hd) as Hi.
+  assert (Hdi : d < i).
+  { unfold wf_src in Hwf. rewrite forallb_forall in Hwf. specialize (Hwf i ltac:(apply in_seq; lia)).
+    rewrite forallb_forall in Hwf. specialize (Hwf d Hd). apply Nat.ltb_lt in Hwf. exact Hwf. }
+  set (n := length (s_nodes s)) in *.
+  assert (Hnd : nth d (cone_upto s E n) false = true).
+  { unfold cone_of in Hc. fold n in Hc. apply orb_true_iff in Hc as [HE|Hn]; [|exact Hn].
+    rewrite cone_upto_value; [|lia]. rewrite HE. reflexivity. }
+  unfold cone_of. fold n. rewrite (cone_upto_value s E i n Hi). apply orb_true_iff. right. apply orb_true_iff. right.
+  apply existsb_exists. exists d. split; [exact Hd|].
+  rewrite <- Hnd. symmetry. apply cone_upto_prefix; lia.
+Qed.
+
+(* C02_edit_cone with the least cone: every executed label belongs to an edited target or to a
+   transitive dependant of one *)
+Theorem edit_cone_least (H : str -> str) cfg s1 s2 roots w c (E : nat -> bool) :
+  cfg_mode cfg = LAll -> cfg_cache cfg = true -> cache_complete c ->
+  wf_src s1 = true ->
+  length (s_nodes s1) = length (s_nodes s2) ->
+  (forall i, deps_at s1 i = deps_at s2 i) ->
+  (forall i, E i = false -> node_at s1 i = node_at s2 i) ->
+  (forall i t p, E i = false -> node_at s1 i = Some (NTarget t) -> In p (td_ins t) ->
+                 pkg_fs s1 t p = pkg_fs s2 t p) ->
+  let K := cone_of s1 E in
+  let r1 := build H cfg s1 roots w c in
+  br_ok r1 = true ->
+  distinct_keys (build_state H cfg s1 roots w c) = true ->
+  no_nocache_outside K s1 (selection s1 roots) = true ->
+  distinct_labels_fromb K s2 = true ->
+  let r2 := build H cfg s2 roots (br_world r1) (br_cache r1) in
+  cross_distinctb K (build_state H cfg s1 roots w c)
+                    (build_state H cfg s2 roots (br_world r1) (br_cache r1)) = true ->
+  forall lb, In lb (br_exec r2) ->
+  exists j t, in_cone s1 E j /\ In j (selection s2 roots) /\ node_at s2 j = Some (NTarget t) /\ lb = td_label t.
+Proof.
+  intros Hm Hc Hcc Hwf Hlen Hshape Hnode Hfiles K r1 Hok Hdk Hnn Hlab r2 Hcross lb Hin.
+  destruct (edit_cone_build H cfg s1 s2 roots w c E K Hm Hc Hcc Hlen Hshape Hnode Hfiles) with (lb := lb)
+    as (j & t & HK & Hj & Hn & Hl); auto.
+  - intros i HE. apply cone_of_base. exact HE.
+  - intros i d Hd HKd. apply (cone_of_closed s1 E i d Hwf Hd HKd).
+  - exists j, t. split; [apply cone_of_sound; exact HK | auto].
+Qed.
+
+(* no-op rebuild in the presence of no-cache targets: whatever runs is a no-cache target or a
+   transitive dependant of one (the clean statement [noop_rebuild] excludes no-cache targets) *)
+Definition is_nocache (s : sources) (i : nat) : bool :=
+  match node_at s i with Some (NTarget t) => td_nocache t | _ => false end.
+
+Lemma no_nocache_outside_cone s sel : no_nocache_outside (cone_of s (is_nocache s)) s sel = true.
+Proof.
+  unfold no_nocache_outside. apply forallb_forall. intros i _.
+  destruct (node_at s i) as [[t|lb a]|] eqn:En; try apply orb_true_r.
+  destruct (td_nocache t) eqn:Et; [|apply orb_true_r].
+  rewrite cone_of_base; [reflexivity|]. unfold is_nocache. rewrite En. exact Et.
+Qed.
+
+Theorem noop_rebuild_nocache_cone (H : str -> str) cfg s roots w c :
+  cfg_mode cfg = LAll -> cfg_cache cfg = true -> cache_complete c -> wf_src s = true ->
+  let K := cone_of s (is_nocache s) in
+  let r1 := build H cfg s roots w c in
+  br_ok r1 = true ->
+  distinct_keys (build_state H cfg s roots w c) = true ->
+  distinct_labels_fromb K s = true ->
+  let r2 := build H cfg s roots (br_world r1) (br_cache r1) in
+  cross_distinctb K (build_state H cfg s roots w c)
+                    (build_state H cfg s roots (br_world r1) (br_cache r1)) = true ->
+  forall lb, In lb (br_exec r2) ->
+  exists j t, in_cone s (is_nocache s) j /\ In j (selection s roots) /\ node_at s j = Some (NTarget t) /\
+              lb = td_label t.
+Proof.
+  intros Hm Hc Hcc Hwf K r1 Hok Hdk Hlab r2 Hcross lb Hin.
+  apply (edit_cone_least H cfg s s roots w c (is_nocache s) Hm Hc Hcc Hwf); auto.
+  apply no_nocache_outside_cone.
+Qed.
+
 (* ================================================================== refutation and non-vacuity (H := hex_enc, injective) *)
 Module C02_examples.
 Local Open Scope char_scope.
@@ -2632,13 +2775,19 @@ Proof.
   - unfold node_at, sx in Hn. cbn in Hn. destruct i; discriminate Hn.
 Qed.
 
+Lemma ex_files_y : forall i t p, Ex i = false -> node_at sx i = Some (NTarget t) -> In p (td_ins t) ->
+  pkg_fs sx t p = pkg_fs sy t p.
+Proof. reflexivity. Qed.
+
 Example edit_cone_nonvacuous :
   forall lb, In lb (br_exec (build hex_enc cfgA sy [3] (br_world r1) (br_cache r1))) ->
   exists j t, Kx j = true /\ In j (selection sy [3]) /\ node_at sy j = Some (NTarget t) /\ lb = td_label t.
 Proof.
   apply (edit_cone_build hex_enc cfgA sx sy [3] w0 empty_cache Ex Kx);
-    first [ apply empty_cache_complete | exact ex_deps_y | exact ex_node_y | exact ex_EK
-          | apply (ex_shape sy eq_refl ex_deps_y) | vm_compute; reflexivity | reflexivity ].
+    [ reflexivity | reflexivity | apply empty_cache_complete | reflexivity | exact ex_deps_y | exact ex_node_y
+    | exact ex_files_y | exact ex_EK | apply (ex_shape sy eq_refl ex_deps_y)
+    | vm_compute; reflexivity | vm_compute; reflexivity | vm_compute; reflexivity
+    | vm_compute; reflexivity | vm_compute; reflexivity ].
 Qed.
 
 Example edit_cone_nonvacuous_z :
@@ -2646,8 +2795,41 @@ Example edit_cone_nonvacuous_z :
   exists j t, Kx j = true /\ In j (selection sz [3]) /\ node_at sz j = Some (NTarget t) /\ lb = td_label t.
 Proof.
   apply (edit_cone_build hex_enc cfgA sx sz [3] w0 empty_cache Ex Kx);
-    first [ apply empty_cache_complete | exact ex_deps_z | exact ex_node_z | exact ex_files_z | exact ex_EK
-          | apply (ex_shape sz eq_refl ex_deps_z) | vm_compute; reflexivity | reflexivity ].
+    [ reflexivity | reflexivity | apply empty_cache_complete | reflexivity | exact ex_deps_z | exact ex_node_z
+    | exact ex_files_z | exact ex_EK | apply (ex_shape sz eq_refl ex_deps_z)
+    | vm_compute; reflexivity | vm_compute; reflexivity | vm_compute; reflexivity
+    | vm_compute; reflexivity | vm_compute; reflexivity ].
+Qed.
+
+Example edit_cone_least_nonvacuous :
+  wf_src sx = true /\
+  forall lb, In lb (br_exec (build hex_enc cfgA sz [3] (br_world r1) (br_cache r1))) ->
+  exists j t, in_cone sx Ex j /\ In j (selection sz [3]) /\ node_at sz j = Some (NTarget t) /\ lb = td_label t.
+Proof.
+  split; [reflexivity|].
+  apply (edit_cone_least hex_enc cfgA sx sz [3] w0 empty_cache Ex);
+    [ reflexivity | reflexivity | apply empty_cache_complete | reflexivity | reflexivity | exact ex_deps_z
+    | exact ex_node_z | exact ex_files_z
+    | vm_compute; reflexivity | vm_compute; reflexivity | vm_compute; reflexivity
+    | vm_compute; reflexivity | vm_compute; reflexivity ].
+Qed.
+
+(* b is tagged no-cache: the rebuild runs b only, which is inside the cone of the no-cache targets *)
+Definition tbn := mkTD (Lb ["b"]) ["c";"m";"d";"b"] ["s";"2"] [] [mkOut OFile ["s";"/";"b";".";"o"]] [0] []
+                       true false BNormal false.
+Definition sn := mkSrc [NTarget ta; NTarget tbn; NAlias (Lb ["x"]) 1; NTarget tc] files1.
+Definition rn1 := build hex_enc cfgA sn [3] w0 empty_cache.
+
+Example noop_rebuild_nocache_cone_nonvacuous :
+  br_exec (build hex_enc cfgA sn [3] (br_world rn1) (br_cache rn1)) = [Lb ["b"]] /\
+  forall lb, In lb (br_exec (build hex_enc cfgA sn [3] (br_world rn1) (br_cache rn1))) ->
+  exists j t, in_cone sn (is_nocache sn) j /\ In j (selection sn [3]) /\ node_at sn j = Some (NTarget t) /\
+              lb = td_label t.
+Proof.
+  split; [vm_compute; reflexivity|].
+  apply (noop_rebuild_nocache_cone hex_enc cfgA sn [3] w0 empty_cache);
+    [ reflexivity | reflexivity | apply empty_cache_complete | reflexivity
+    | vm_compute; reflexivity | vm_compute; reflexivity | vm_compute; reflexivity | vm_compute; reflexivity ].
 Qed.
 
 Example edit_exec_concrete :
@@ -2659,11 +2841,46 @@ Example early_cutoff_nonvacuous :
   rt_status (get_rt (build_state hex_enc cfgA sy [3] (br_world r1) (br_cache r1)) 1) = THit.
 Proof.
   apply (early_cutoff_build hex_enc cfgA sx sy [3] w0 empty_cache Ex Kx 1 tb);
-    first [ apply empty_cache_complete | exact ex_deps_y | exact ex_node_y | exact ex_EK
-          | apply (ex_shape sy eq_refl ex_deps_y) | vm_compute; reflexivity | reflexivity
-          | right; vm_compute; reflexivity | left; reflexivity | idtac ].
+    [ reflexivity | reflexivity | apply empty_cache_complete | reflexivity | exact ex_deps_y | exact ex_node_y
+    | exact ex_files_y | exact ex_EK | apply (ex_shape sy eq_refl ex_deps_y)
+    | vm_compute; reflexivity | vm_compute; reflexivity | vm_compute; reflexivity
+    | vm_compute; reflexivity | vm_compute; reflexivity
+    | reflexivity | reflexivity | reflexivity | right; vm_compute; reflexivity | | left; reflexivity ].
   intros x [<-|[]]. right. exists ta, ta2. split; [reflexivity|]. split; [reflexivity|].
   split; [right; vm_compute; reflexivity | vm_compute; reflexivity].
 Qed.
+
+(* ------------------------------------------------------------------ single task *)
+Definition b_first : bstate := init_b w0 empty_cache 4.
+Definition b_second : bstate := init_b w1 (br_cache r1) 4.
+Definition r_a : result :=
+  match rlookup (pt_key hex_enc sx ta []) (c_results (br_cache r1)) with Some r => r | None => mkRes [] [] end.
+
+(* first build: a executes, and the reason the theorem gives is "no result under its key" *)
+Example exec_only_if_nonvacuous :
+  rt_status (get_rt (process_target hex_enc cfgA sx 0 ta b_first) 0) = TExecuted /\
+  b_exec (process_target hex_enc cfgA sx 0 ta b_first) <> b_exec b_first /\
+  dep_hashes sx b_first (td_deps ta) = Some [] /\
+  rlookup (pt_key hex_enc sx ta []) (c_results (b_cache b_first)) = None.
+Proof. vm_compute. repeat split; try reflexivity. discriminate. Qed.
+
+(* second build, after a's output was deleted: every hypothesis of hit_if holds *)
+Example hit_if_nonvacuous :
+  ws_get ["p";"/";"a";".";"o"] (w_ws (b_world b_second)) = PAbsent /\
+  rt_status (get_rt (process_target hex_enc cfgA sx 0 ta b_second) 0) = THit /\
+  b_exec (process_target hex_enc cfgA sx 0 ta b_second) = b_exec b_second.
+Proof.
+  split; [vm_compute; reflexivity|].
+  destruct (hit_if hex_enc cfgA sx 0 ta b_second [] r_a) as (A & _ & B & _);
+    try (vm_compute; reflexivity); [| | | auto].
+  - vm_compute. lia.
+  - intros def dg Hin. vm_compute in Hin. destruct Hin as [E0|[]]. inversion E0; subst. vm_compute. discriminate.
+  - intros o [<-|[]] _. vm_compute. discriminate.
+Qed.
+
+Example run_history_cache_complete_nonvacuous :
+  no_blob_faults [OpSources sx; OpBuild cfgA [3]; OpPerturb ["p";"/";"a";".";"o"] PAbsent; OpDropResults;
+                  OpBuild cfgA [3]] = true.
+Proof. reflexivity. Qed.
 
 End C02_examples.
